@@ -130,26 +130,10 @@ func runC11(c *Ctx) {
 	// pair tuned so that the total lands on 65,530..65,560, and variants where the size is
 	// reached by many small pairs
 	for total := 65528; total <= 65562; total++ {
-		var kvs []KV
-		for i := 0; i < 127; i++ {
-			k := r.Bytes(255)
-			k[0], k[1] = byte(i), 1
-			kvs = append(kvs, KV{k, r.Bytes(255)})
-		}
-		rest := total - 127*514 - 4
-		kl := 1 + r.Intn(min(rest, 250))
-		if r.Bool() {
-			kl = 255 // sorts after everything else when it starts with 0xff
-		}
-		if kl > rest {
-			kl = rest
-		}
-		k := r.Bytes(kl)
-		if len(k) > 0 {
-			k[0] = 0xff
-		}
-		kvs = append(kvs, KV{k, r.Bytes(rest - kl)})
-		c11Map(c, kvs)
+		c11Map(c, boundaryMap(r, total))
+	}
+	for total := 65563; total <= 66060; total += 7 {
+		c11Map(c, boundaryMap(r, total))
 	}
 	for _, total := range []int{65535, 65536, 65537, 65790, 66046, 66047, 66048, 70000} {
 		var kvs []KV
@@ -212,4 +196,45 @@ func c11Parse(c *Ctx, p *Parser, input []byte) {
 	}
 	_ = res
 	c.Check("parsed_mapping_reserialises", ok, "ReadMapping", [][]byte{input}, class, fmt.Sprintf("consumed %d bytes, Data() is %d bytes", len(consumed), len(m.Data())))
+}
+
+// boundaryMap: 127 pairs of 255+255 bytes (514 bytes each on the wire = 65,278) plus one pair
+// tuned so that the encoded payload is exactly total bytes
+func boundaryMap(r *Rng, total int) []KV {
+	var kvs []KV
+	for i := 0; i < 127; i++ {
+		k := r.Bytes(255)
+		k[0], k[1] = byte(i), 1
+		kvs = append(kvs, KV{k, r.Bytes(255)})
+	}
+	rest := total - 127*514 - 4
+	for rest > 510 {
+		k := r.Bytes(255)
+		k[0], k[1] = 0xfe, byte(len(kvs))
+		kvs = append(kvs, KV{k, r.Bytes(200)})
+		rest -= 459
+	}
+	if rest < 0 {
+		rest = 0
+	}
+	kl := 1 + r.Intn(min(rest, 250)+1)
+	if r.Bool() {
+		kl = 255
+	}
+	if kl > rest {
+		kl = rest
+	}
+	if kl > 255 {
+		kl = 255
+	}
+	k := r.Bytes(kl)
+	if len(k) > 0 {
+		k[0] = 0xff
+	}
+	v := rest - kl
+	if v > 255 {
+		v = 255
+	}
+	kvs = append(kvs, KV{k, r.Bytes(v)})
+	return kvs
 }
